@@ -105,3 +105,39 @@ theorem eval_synthSize (env : Env) (fs : List Field) :
   rw [maybeMax_clauses env fs 0, sizeFrom0_eq _ 0 (Int.le_refl 0)]
 
 end Emboss.View
+
+namespace Emboss.View
+open Emboss.ViewSpec
+
+theorem sizeFrom_ge : ∀ (l : List Extent) (acc r : Int), sizeFrom acc l = some r → acc ≤ r
+  | [], acc, r, h => by simp [sizeFrom] at h; omega
+  | (none, _, _) :: _, _, _, h => by simp [sizeFrom] at h
+  | (some false, _, _) :: rest, acc, r, h => by
+    simp only [sizeFrom] at h; exact sizeFrom_ge rest acc r h
+  | (some true, some s, some z) :: rest, acc, r, h => by
+    simp only [sizeFrom] at h
+    have := sizeFrom_ge rest _ r h
+    unfold imax at this; split at this <;> omega
+  | (some true, none, _) :: _, _, _, h => by simp [sizeFrom] at h
+  | (some true, some _, none) :: _, _, _, h => by simp [sizeFrom] at h
+
+/-- every present field with a known location ends at or before the reference size -/
+theorem sizeFrom_covers : ∀ (l : List Extent) (acc r : Int), sizeFrom acc l = some r →
+    ∀ s z : Int, (some true, some s, some z) ∈ l → s + z ≤ r
+  | [], _, _, _, _, _, hm => by cases hm
+  | (none, _, _) :: _, _, _, h, _, _, _ => by simp [sizeFrom] at h
+  | (some false, a, b) :: rest, acc, r, h, s, z, hm => by
+    simp only [sizeFrom] at h
+    cases hm with
+    | tail _ hm' => exact sizeFrom_covers rest acc r h s z hm'
+  | (some true, some s0, some z0) :: rest, acc, r, h, s, z, hm => by
+    simp only [sizeFrom] at h
+    cases hm with
+    | head =>
+      have := sizeFrom_ge rest _ r h
+      unfold imax at this; split at this <;> omega
+    | tail _ hm' => exact sizeFrom_covers rest _ r h s z hm'
+  | (some true, none, _) :: _, _, _, h, _, _, _ => by simp [sizeFrom] at h
+  | (some true, some _, none) :: _, _, _, h, _, _, _ => by simp [sizeFrom] at h
+
+end Emboss.View
